@@ -228,6 +228,7 @@ class Engine(object):
             outcome = None
             try:
                 call = setup(ctx)
+                ctx.call = call
                 try:
                     ret = body(interp, call)
                     outcome = ('return', ret)
@@ -245,6 +246,10 @@ class Engine(object):
                     stats['exits']['cut'] = stats['exits'].get('cut', 0) + 1
             except Undecided as u:
                 stats['undecided'].append('%s [%s]' % (u, ' '.join(ctx.trace[-4:])))
+            except (RecursionError, KeyError, AttributeError, TypeError, IndexError, ValueError, z3.Z3Exception) as ex:
+                # a fault inside the executor is never a verdict
+                import traceback
+                stats['undecided'].append('executor fault %r at %s [%s]' % (ex, traceback.format_exc().strip().splitlines()[-3:], ' '.join(ctx.trace[-4:])))
             stats['feas_calls'] += ctx.n_feas
             for ob in ctx.obligations:
                 obligations.append(ob)
